@@ -594,7 +594,8 @@ class Function(ClassOrFunc):
                 try:
                     nested_children = element.children
                 except AttributeError:
-                    if element.value == 'yield':
+                    # The text of an f-string may look like a keyword.
+                    if element.value == 'yield' and element.type == 'keyword':
                         if element.parent.type == 'yield_expr':
                             yield element.parent
                         else:
